@@ -19,15 +19,18 @@ import common as C
 import c01_gen as G
 import c01_jsparse as J
 import c01_wide as W
+import c01_s2gen as G2
 
 ID = "C01"
 PROPS_FILE = "Props/C01.v"
-MODEL_TARGETS = ["Corr/C01_Eval.v"]
+MODEL_TARGETS = ["Corr/C01_Eval.v", "Corr/C01_S2_Eval.v"]
 ALLOWED_AXIOMS = []
 RULE = ("fragment programs: random well-formed MiniGo programs (2-4 initial declarations + ~14 top-level statements, nesting <= 3) over "
         "int8..uint/bool with all binary/unary operators, conversions, op-assign, ++/--, if/else-if/else, five loop shapes, "
         "(labelled) break/continue, println; literals biased to the kind's boundaries; plus fixed directed programs (defect witnesses, "
-        "temp-name collisions, else-if chains with divisions). non-trivial = builds and terminates within the fuel; distinct by Go source. "
+        "temp-name collisions, else-if chains with divisions). stage-2 programs: 1-3 helper functions (0-3 parameters of random kinds/bool, result or none, "
+        "guarded self-recursion, division by a parameter) + main with calls in all three forms, if/for around calls, return inside loops, plus 6 directed "
+        "programs (fib, panicking callee, return in loop, parameters named like temporaries, bool parameters, `x := f(x)` shadowing). non-trivial = builds and terminates within the fuel; distinct by Go source. "
         "wide programs: random compositions of feature snippets (switch/fallthrough, goto, arrays, structs, slices, maps, strings, closures, "
         "methods, named results, multiple assignment, shadowing, constants), compared node vs native Go only")
 TRUSTED = [
@@ -38,23 +41,34 @@ TRUSTED = [
     "a documented println rendering difference); double division followed by ToInt32/ToUint32 is exact for operands below 2^32; "
     "Math.imul, Math.min, >>, >>>, <<, &, |, ^, ~ as in ECMAScript; V8 is trusted to implement the subset as JsSem says (checked only by (b)=(c))",
     "only the body of main is modelled; prelude, package initialisation and $throwRuntimeError -> uncaught panic -> exit status are observed, not modelled",
+    "stage 2: Model/C01_S2_{GoSem,JsSem,Compile,Wf}.v are hand-written; tied on every run exactly like stage 1 (every function of a generated multi-function program parsed "
+    "from the real out.js = compile2 p incl. parameter names and var lines; run_js2 parsed = run_go2 p; node = native Go = run_go2 p). JS function calls are modelled as: arguments "
+    "left to right, a fresh store per activation (function scope; the fragment has no package-level variables or closures), `return`; V8's call stack depth is not modelled",
 ]
 ASSUMPTIONS = [
-    "proved fragment = programs accepted by wf_prog (coq/Model/C01_Wf.v); everything else of the property is 'compared, not proved'",
+    "proved fragment = programs accepted by wf_prog (coq/Model/C01_Wf.v, one function) or wf_prog2 (coq/Model/C01_S2_Wf.v, several functions); everything else of the property is 'compared, not proved'",
     "int/uint are 32 bit (documented GopherJS difference): the native reference is built with int32/uint32 in their place",
 ]
 TECHNIQUE = ("Coq proof of a verified mini-compiler: forward simulation MiniGo -> MiniJS (same fuel) for the Gallina mirror of the translator, "
-             "by induction on fuel and statements; tied to /repo on every run by exact structural equality (parsed real output = compile p), "
+             "by induction on fuel and statements, in two stages (stage 1: one function; stage 2: several functions with calls, recursion and return, "
+             "built on the stage-1 lemmas); tied to /repo on every run by exact structural equality (parsed real output = compile p), "
              "translation validation in Coq, and differential runs against node and native Go")
 LEVEL_TEXT = ("Machine-checked, no axioms, no excluded inputs: for every well-formed MiniGo program (one function; int8..uint and bool locals; "
               "all integer operators, conversions, define/assign/op-assign/++/--, if / else-if / else, for with init/cond/post, labelled "
               "break/continue, println) whose Go run ends within the fuel, the JavaScript produced by the Gallina mirror of the translator "
               "prints the same lines and ends the same way (normal exit or the division panic), with the same fuel. Includes the temp-name "
               "allocator (_q _r x y numbered against user variables), else-if conditions translated before bodies, the post statement "
-              "duplicated at every continue, and wrap-around of every operator at every width. On every run the mirror is compared for "
+              "duplicated at every continue, and wrap-around of every operator at every width. STAGE 2 (compile_correct_stage2_partial, also no axioms): "
+              "the same statement for programs of several top-level functions with int8..uint/bool parameters and zero or one result: calls as statements and "
+              "as the right-hand side of = / := (arguments are arbitrary stage-1 expressions), recursion (one fuel unit per call), if/else and for loops around "
+              "calls, return (also from inside those loops and ifs), call-free statements being arbitrary stage-1 statements; covers the per-function name "
+              "allocator (parameters first, listed in the var line; temporaries numbered against them), the right-hand side translated before the defined "
+              "variable is named, panics inside callees after partial output. On every run the mirror is compared for "
               "exact equality with the parsed output of the real compiler on generated programs, the parsed output is executed by the MiniJS "
               "interpreter inside Coq against the MiniGo interpreter, and node / native Go are compared with the model and with each other.")
-LEVEL_NOTE = ("partial w.r.t. the property text only in scope: the theorem covers the stage-1 fragment (no calls, no composite types); the "
+LEVEL_NOTE = ("partial w.r.t. the property text only in scope: the theorems cover the stage-1 fragment (one function) and the stage-2 fragment (several "
+              "functions; NOT covered: calls nested inside operator expressions or call arguments, package-level variables, break/continue across a loop "
+              "containing a call, multiple results, closures, methods, composite types); the "
               "rest of the property (switch, goto, composite types, closures, methods, type switches ...) is compared against native Go on "
               "generated programs, not proved. GoSem/JsSem are validated differentially (native Go, V8), not derived from a mechanised standard.")
 
@@ -429,6 +443,227 @@ def fragment(ctx):
     ctx.cov["fragment_proved_and_tied"] = dist
 
 
+# ---------------------------------------------------------------- stage 2: several functions, calls, return
+def run_stage2_batch(ctx, bi, items):
+    """items: list of (idx, name, prog2, full_parens). Like run_fragment_batch; every function of every program is parsed
+    from the REAL out.js; node / native are run with the name of the program's main function."""
+    d = os.path.join(ctx.work, "s2b%d" % bi)
+    results = []
+    fj, fn = [], []
+    for idx, name, prog, full in items:
+        fj.append((prog["main"], G2.go_funcs(prog, native=False, full=full)))
+        fn.append((prog["main"], G2.go_funcs(prog, native=True, full=full)))
+        results.append(dict(idx=idx, name=name, prog=prog, fname=prog["main"], source=G2.go_source(prog, native=False, full=full), ok=False))
+    C.write_go_program(d, {"main.go": G.batch_source(fj, native=False)}, module="verifc01s2")
+    rc, log = C.gopherjs_build(d, timeout=900)
+    if rc == 124:
+        for res in results:
+            res["infra"] = "gopherjs build timed out"
+        return results
+    if rc != 0:
+        if len(items) == 1:
+            results[0]["build_error"] = log[-1500:]
+            return results
+        out = []               # find the culprit(s): build one by one
+        for k, it in enumerate(items):
+            out += run_stage2_batch(ctx, bi * 1000 + k + 1, [it])
+        return out
+    rc, log = C.sh(["node", "--check", "out.js"], cwd=d, timeout=300)
+    if rc == 124:
+        for res in results:
+            res["infra"] = "node --check timed out"
+        return results
+    if rc != 0:
+        for res in results:
+            res["syntax_error"] = log[-800:]
+        return results
+    js = open(os.path.join(d, "out.js")).read()
+    dn = os.path.join(d, "native")
+    C.write_go_program(dn, {"main.go": G.batch_source(fn, native=True)}, module="verifc01s2n")
+    rc, nlog = C.sh(["go", "build", "-o", "prog", "."], cwd=dn, env=C.goenv(), timeout=900)
+    native_ok = rc == 0
+    if rc == 124:
+        for res in results:
+            res["infra"] = "native go build timed out"
+        return results
+
+    def run_one(res):
+        names = [f["name"] for f in res["prog"]["funcs"]]
+        texts = []
+        for f in names:
+            try:
+                texts.append(J.func2_text(js, f))
+            except J.ParseError:
+                pass
+        res["main_js"] = "".join(texts)
+        try:
+            parsed = [(f, J.parse_func2(js, f)) for f in names]
+            res["parsed"] = J.to_coq2(parsed, res["fname"])
+            res["roundtrip"] = all(J.roundtrip2_ok(p) for _, p in parsed)
+        except J.ParseError as e:
+            res["parse_error"] = str(e)
+        rc, out, err = C.run_node(os.path.join(d, "out.js"), args=[res["fname"]], cwd=d, timeout=90)
+        res["node"] = outcome_node(rc, out, err)
+        if not native_ok:
+            res["native_build_error"] = nlog[-1500:]
+            return res
+        rc, out, err = C.sh2(["./prog", res["fname"]], cwd=dn, timeout=120)
+        res["native"] = outcome_native(rc, out, err)
+        res["ok"] = True
+        return res
+
+    C.parallel_map(run_one, results, workers=4)
+    return results
+
+
+HEADER2 = ("From Coq Require Import ZArith List String Bool.\nFrom Verif Require Import Model.C01_GoSem Model.C01_JsSem Model.C01_Compile "
+           "Model.C01_Wf Corr.C01_Eval Model.C01_S2_GoSem Model.C01_S2_JsSem Model.C01_S2_Compile Model.C01_S2_Wf Corr.C01_S2_Eval.\n"
+           "Import ListNotations.\nLocal Open Scope Z_scope.\n")
+EMPTY_JS2 = '{| jp2_funcs := []; jp2_main := ""%string |}'
+
+
+def eval_shard2(ctx, k, items):
+    p = os.path.join(ctx.work, "s2cases_%d.v" % k)
+    with open(p, "w") as f:
+        f.write(HEADER2)
+        names = []
+        for j, r in enumerate(items):
+            f.write("Definition c%d : case2 := {| c2_prog := %s;\n c2_parsed := %s;\n c2_node := %s; c2_native := %s; c2_fuel := %d |}.\n" % (
+                j, G2.coq_term(r["prog"]), r.get("parsed", EMPTY_JS2), cq_outcome(r.get("node")), cq_outcome(r.get("native")), FUEL))
+            names.append("c%d" % j)
+        f.write("Definition M := Eval vm_compute in verdicts2 [%s].\nPrint M.\n" % "; ".join(names))
+    rc, out = C.coq_run(p, timeout=1800)
+    m = re.search(r"M\s*=\s*(\[.*?\])\s*:\s*list", out.replace("\n", " "), re.S)
+    if rc != 0 or not m:
+        return k, None, out[-1500:]
+    rows = re.findall(r"\[([^\[\]]*)\]", m.group(1))
+    vs = [[int(x.replace("%N", "")) for x in re.findall(r"\d+(?:%N)?", row)] for row in rows]
+    if len(vs) != len(items):
+        return k, None, "verdict count mismatch: " + out[-800:]
+    return k, vs, ""
+
+
+def stage2(ctx):
+    r = ctx.rng("stage2")
+    n = int(os.environ.get("VERIF_C01_N2", 0)) or (36 if ctx.quick else 400)
+    progs = [(name, p, False) for name, p in G2.directed(0)]
+    feats = {}
+    for i in range(n):
+        p, f = G2.generate(r, len(progs))
+        progs.append(("s2-random-%d" % i, p, r.random() < 0.3))
+        for x in f:
+            feats[x] = feats.get(x, 0) + 1
+    items = [(i, progs[i][0], progs[i][1], progs[i][2]) for i in range(len(progs))]
+    bsz = 12
+    batches = [items[i:i + bsz] for i in range(0, len(items), bsz)]
+    results = [x for rs in C.parallel_map(lambda k: run_stage2_batch(ctx, k, batches[k]), range(len(batches))) for x in rs]
+    ctx.log("stage2: %d programs built and run" % len(results))
+
+    dist = dict(programs=len(results), functions=0, build_failures=0, endings=dict(exit=0, panic=0), out_of_fuel=0,
+                structural_equal=0, validated_in_coq=0, node_equal_model=0, native_equal_model=0, source_lines=0, js_statements=0,
+                parser_roundtrip_ok=0)
+    evaluable = []
+    for res in results:
+        rep = dict(kind="fragment", stage=2, name=res["name"], source=res["source"])
+        dist["source_lines"] += res["source"].count("\n")
+        dist["functions"] += len(res["prog"]["funcs"])
+        if "infra" not in res:
+            for side in ("node", "native"):
+                if res.get(side) and res[side][0] == "infra":
+                    res["infra"] = res[side][1]
+        if "infra" in res:
+            dist["skipped_infrastructure"] = dist.get("skipped_infrastructure", 0) + 1
+            ctx.notes.append("skipped %s: %s" % (res["name"], res["infra"]))
+            continue
+        if "build_error" in res:
+            dist["build_failures"] += 1
+            sig = "s2-compiler-internal-error" if "compiler panic" in res["build_error"] or "internal" in res["build_error"] else "s2-build-failed"
+            ctx.violation(sig, "gopherjs build failed on a well-formed stage-2 program", dict(rep, log=res["build_error"]), concrete=True)
+            continue
+        if "syntax_error" in res:
+            ctx.violation("s2-emitted-js-syntax-error", "node --check rejects out.js", dict(rep, log=res["syntax_error"]), concrete=True)
+            continue
+        if "native_build_error" in res:
+            ctx.violation("s2-generator-program-rejected-by-go", "native go build rejects a generated program (generator bug)",
+                          dict(rep, log=res["native_build_error"]), concrete=False)
+            continue
+        res["behaviour_differs"] = (res["node"] != res["native"])
+        evaluable.append(res)
+
+    shard = 8
+    shards = [evaluable[i:i + shard] for i in range(0, len(evaluable), shard)]
+    outs = C.parallel_map(lambda k: eval_shard2(ctx, k, shards[k]), range(len(shards)))
+    nsamples = 0
+    for k, vs, err in outs:
+        if vs is None and "[timeout" in err:
+            ctx.notes.append("skipped stage-2 shard %d: coqc timed out" % k)
+            continue
+        if vs is None:
+            ctx.violation("s2-model-eval-failed", "Coq evaluation of the stage-2 model failed", dict(shard=k, log=err), concrete=False)
+            for res in shards[k]:
+                if res["behaviour_differs"]:
+                    ctx.violation("s2-node-differs-from-native-go", "node and native Go disagree", dict(kind="fragment", stage=2, name=res["name"],
+                                  source=res["source"], node=res["node"], native=res["native"]), concrete=True)
+            continue
+        for res, v in zip(shards[k], vs):
+            wf, svars, sbody, closed, tv, modeljs, node_eq, native_eq, cls = v
+            rep = dict(kind="fragment", stage=2, name=res["name"], source=res["source"], node=res["node"], native=res["native"], verdict=v,
+                       main_js=res.get("main_js", "")[:6000])
+            nontrivial = cls == 0
+            ctx.count(res["source"], nontrivial=nontrivial)
+            if res["idx"] < 1 or (res["name"].startswith("s2-random") and nsamples < 2):
+                nsamples += res["name"].startswith("s2-random")
+                ctx.sample(dict(name=res["name"], source=res["source"][:1500], node=str(res["node"])[:300], verdict=v))
+            dist["parser_roundtrip_ok"] += bool(res.get("roundtrip"))
+            dist["js_statements"] += res.get("main_js", "").count(";")
+            if cls == 1:
+                dist["out_of_fuel"] += 1
+            if res["node"][0] == "done":
+                dist["endings"][res["node"][2]] += 1
+            concrete_reported = False
+            if res["behaviour_differs"]:
+                ctx.violation("s2-node-differs-from-native-go", "node out.js and the natively built program disagree (%s)" % res["name"], rep, concrete=True)
+                concrete_reported = True
+            if not wf:
+                ctx.violation("s2-generator-not-wellformed", "generated program rejected by wf_prog2 (generator bug)", rep, concrete=False)
+                continue
+            if cls == 2:
+                ctx.violation("s2-gosem-stuck", "stage-2 GoSem is stuck on a well-formed program", rep, concrete=False)
+                continue
+            if "parse_error" in res:
+                if not concrete_reported:
+                    ctx.violation("s2-emitted-js-outside-subset", "a function of the real out.js is outside the stage-2 MiniJS subset: " + res["parse_error"][:200],
+                                  rep, concrete=False)
+                continue
+            if not res.get("roundtrip"):
+                ctx.violation("s2-jsparse-selftest", "JS parser self-test (print->parse) failed", rep, concrete=False)
+            ok_struct = svars and sbody and closed
+            dist["structural_equal"] += bool(ok_struct)
+            if cls == 1:
+                continue
+            dist["validated_in_coq"] += bool(tv)
+            dist["node_equal_model"] += bool(node_eq)
+            dist["native_equal_model"] += bool(native_eq)
+            if not native_eq:
+                ctx.violation("s2-gosem-differs-from-native-go", "run_go2 disagrees with the natively built program (spec side of the model)", rep, concrete=False)
+                continue
+            if concrete_reported:
+                continue
+            if not ok_struct:
+                what = "names" if not svars else ("body" if not sbody else "undeclared identifier")
+                ctx.violation("s2-structural-mismatch-" + what.replace(" ", "-"),
+                              "functions parsed from the real out.js differ from `compile2 p` (%s): the theorem no longer speaks about this translator" % what,
+                              rep, concrete=False)
+            if cls == 0 and not tv:
+                ctx.violation("s2-translation-validation-failed", "run_js2 (parsed real output) differs from run_go2", rep, concrete=False)
+            if cls == 0 and not modeljs:
+                ctx.violation("s2-model-compile-incorrect", "run_js2 (compile2 p) differs from run_go2: contradicts the stage-2 theorem", rep, concrete=False)
+            if cls == 0 and not node_eq:
+                ctx.violation("s2-node-differs-from-model", "node out.js differs from run_go2", rep, concrete=False)
+    dist["generator_features"] = feats
+    ctx.cov["stage2_proved_and_tied"] = dist
+
+
 def wide(ctx):
     r = ctx.rng("wide")
     nb = int(os.environ.get("VERIF_C01_NW", 0)) or (3 if ctx.quick else 30)
@@ -506,6 +741,8 @@ def wide(ctx):
 def correspond(ctx):
     fragment(ctx)
     ctx.log("fragment done")
+    stage2(ctx)
+    ctx.log("stage2 done")
     wide(ctx)
     ctx.log("wide done")
 
